@@ -442,7 +442,12 @@ class PDFStandardSecurityHandler:
         return result[:n]
 
     def authenticate(self, password: str) -> Optional[bytes]:
-        password_bytes = password.encode("latin1")
+        try:
+            password_bytes = password.encode("latin1")
+        except UnicodeEncodeError:
+            # not expressible in the encoding of the password entries,
+            # so it cannot be one of the two passwords
+            return None
         key = self.authenticate_user_password(password_bytes)
         if key is None:
             key = self.authenticate_owner_password(password_bytes)
@@ -594,7 +599,11 @@ class PDFStandardSecurityHandlerV5(PDFStandardSecurityHandlerV4):
             return None
 
     def authenticate(self, password: str) -> Optional[bytes]:
-        password_b = self._normalize_password(password)
+        try:
+            password_b = self._normalize_password(password)
+        except ValueError:
+            # SASLprep prohibits the string, so it cannot be a password
+            return None
         hash = self._password_hash(password_b, self.o_validation_salt, self.u)
         if hash == self.o_hash:
             hash = self._password_hash(password_b, self.o_key_salt, self.u)
